@@ -457,6 +457,7 @@ def subst_value(v, pairs):
     if isinstance(v, VBool): return VBool(z3.substitute(v.t, *pairs))
     if isinstance(v, VReal): return VReal(z3.substitute(v.t, *pairs))
     if isinstance(v, VOpt): return VOpt(z3.substitute(v.t, *pairs))
+    if isinstance(v, VList): return VList(z3.substitute(v.len, *pairs), z3.substitute(v.arr, *pairs), v.kind)
     raise StaleContract('parametric macro result %r' % (v,))
 
 
@@ -531,6 +532,10 @@ def _verify_lemma(self, name, L):
     self.defs = dict(self.global_defs); self.defs.update(L.get('defs', {}))
     p = Path()
     for n, k in L.get('vars', {}).items(): p.env[n] = self.make_value(k, n, p)
+    if L.get('identify_solution'):
+        # T3 made explicit: "let nu be the valuation the solver reported" - solved(v) and nu(v) denote the same value in this lemma
+        from . import models_lp
+        p.ghost['val'] = models_lp.NU
 
     own_defs = self.defs
 
@@ -540,13 +545,16 @@ def _verify_lemma(self, name, L):
     def clauses(h):
         if isinstance(h, str): return [_Cl(None, h, p, own_defs)]
         if len(h) == 2: return [_Cl(h[0], h[1], p, own_defs)]       # (name, clause)
-        which, key, binding = h
+        which, key, binding = h[:3]
+        overrides = h[3] if len(h) > 3 and h[3] else {}      # definitions substituted for uninterpreted spec symbols of that contract (e.g. the weight W)
+        only = h[4] if len(h) > 4 else None                  # clause names (default: all)
         c = self.contracts[key]; q = p.fork(); q.env = {}
         for n, src in binding.items(): q.env[n] = self.spec_value(src, p)
-        d = dict(self.global_defs); d.update(c.get('defs', {}))
+        d = dict(self.global_defs); d.update(c.get('defs', {})); d.update(overrides)
         out = []
         for i, src in enumerate(c.get(which, [])):
             nm, src = src if isinstance(src, tuple) else ('%s%d' % (which, i), src)
+            if only is not None and nm not in only: continue
             out.append(_Cl(nm, src, q, d))
         if not out: raise StaleContract('lemma %s: %s has no %s clauses' % (name, key, which))
         return out
@@ -579,7 +587,7 @@ def _verify_lemma(self, name, L):
         if isinstance(g, tuple) and g[0] == 'assume':      # hypotheses added after earlier goals (ordering matters)
             for cl in clauses(g[1]): p.assume(ev_clause(cl))
             continue
-        if isinstance(g, tuple) and len(g) == 3 and g[0] in ('requires', 'ensures'):
+        if isinstance(g, tuple) and len(g) >= 3 and g[0] in ('requires', 'ensures') and isinstance(g[2], dict):
             for cl in clauses(g):
                 self.vcs.append(VC('goal/%s/%s' % (g[1].split(':')[1], cl.nm), list(p.pc), ev_clause(cl), 'lemma', 0, self.fn.key))
         else:
@@ -603,37 +611,52 @@ def _induct_fact(self, L, p):
     return z3.ForAll([m], z3.Implies(z3.And(self.spec_value(lo, p).t <= m, m <= self.spec_value(hi, p).t), self.spec_eval(claim, q)))
 
 
-def _use_lemma(self, name, binding, p, where, conditional=False):
-    """Instantiate a proved lemma: its hypotheses become obligations, its conclusions are assumed."""
+def _use_lemma(self, name, binding, p, where, conditional=False, forall=None):
+    """Instantiate a proved lemma: its hypotheses become obligations, its conclusions are assumed.
+    forall='j': the binding may mention the integer j; the (conditional) instance is assumed for every j."""
     L = self.all_lemmas.get(name)
     if L is None: raise StaleContract('unknown lemma ' + name)
     q = p.fork(); q.env = {}
-    for n in L.get('vars', {}):
-        if n not in binding: raise StaleContract('use of lemma %s does not bind %s' % (name, n))
-        q.env[n] = self.spec_value(binding[n], p)
-    saved = self.defs; self.defs = dict(self.global_defs); self.defs.update(L.get('defs', {}))
+    jv = None
+    if forall:
+        conditional = True
+        jv = fresh(forall, I); p = p  # the quantified index is visible to the binding expressions only
+        penv_saved = p.env.get(forall); p.env[forall] = VInt(jv); self.qvars.append(jv)
     try:
-        hyps = []
-        for i, h in enumerate(L.get('hyps', [])):
-            if isinstance(h, tuple) and len(h) == 2: h = h[1]
-            if not isinstance(h, str): raise StaleContract('lemma %s with contract-clause hypotheses cannot be instantiated' % name)
-            t = self.spec_eval(h, q); hyps.append(t)
-            if not conditional:
-                self.vcs.append(VC('lemma-pre/%s/%d@%s' % (name, i, where), list(p.pc), t, 'call-pre', 0, self.fn.key))
-        # conditional use: (hypotheses => conclusions) is assumed, no obligation (the lemma simply does not apply otherwise)
-        guard = (lambda t: z3.Implies(z3.And(*hyps), t) if hyps else t) if conditional else (lambda t: t)
-        if 'induct' in L: p.assume(guard(self.induct_fact(L, q)))
-        for g in L.get('goals', []):
-            if isinstance(g, tuple) and g[0] not in ('assume', 'requires', 'ensures') and isinstance(g[1], str):
-                t = guard(self.spec_eval(g[1], q)); p.assume(t)
-                self.named_facts[name + '/' + g[0]] = t
+        for n in L.get('vars', {}):
+            if n not in binding: raise StaleContract('use of lemma %s does not bind %s' % (name, n))
+            q.env[n] = self.spec_value(binding[n], p)
+        saved = self.defs; self.defs = dict(self.global_defs); self.defs.update(L.get('defs', {}))
+        try:
+            hyps = []
+            for i, h in enumerate(L.get('hyps', [])):
+                if isinstance(h, tuple) and len(h) == 2: h = h[1]
+                if not isinstance(h, str): raise StaleContract('lemma %s with contract-clause hypotheses cannot be instantiated' % name)
+                t = self.spec_eval(h, q); hyps.append(t)
+                if not conditional:
+                    self.vcs.append(VC('lemma-pre/%s/%d@%s' % (name, i, where), list(p.pc), t, 'call-pre', 0, self.fn.key))
+            # conditional use: (hypotheses => conclusions) is assumed, no obligation (the lemma simply does not apply otherwise)
+            guard = (lambda t: z3.Implies(z3.And(*hyps), t) if hyps else t) if conditional else (lambda t: t)
+            if jv is not None:
+                g0 = guard; guard = lambda t: z3.ForAll([jv], g0(t))
+            if 'induct' in L: p.assume(guard(self.induct_fact(L, q)))
+            for g in L.get('goals', []):
+                if isinstance(g, tuple) and g[0] not in ('assume', 'requires', 'ensures') and isinstance(g[1], str):
+                    t = guard(self.spec_eval(g[1], q)); p.assume(t)
+                    self.named_facts[name + '/' + g[0]] = t
+        finally:
+            self.defs = saved
     finally:
-        self.defs = saved
+        if jv is not None:
+            self.qvars.pop()
+            if penv_saved is None: p.env.pop(forall, None)
+            else: p.env[forall] = penv_saved
 
 
 def _apply_lemmas(self, anchor, p):
     for u in self.contract.get('use_lemmas', {}).get(anchor, []):
-        self.use_lemma(u[0], u[1], p, anchor, conditional=(len(u) > 2 and u[2] == 'if-applicable'))
+        mode = u[2] if len(u) > 2 else ''
+        self.use_lemma(u[0], u[1], p, anchor, conditional=(mode == 'if-applicable'), forall=(mode[7:] if mode.startswith('forall:') else None))
     # intermediate assertions (proof cuts): proved here, then available to everything that follows on this path
     for i, src in enumerate(self.contract.get('asserts', {}).get(anchor, [])):
         name, src = src if isinstance(src, tuple) else ('%d' % i, src)
